@@ -31,6 +31,12 @@ def declaredLen (hs : List Hdr) : Option Nat :=
   | [h] => (String.ofList (h.value.map fun b => Char.ofNat b.toNat)).toNat?
   | _ => none
 
+/-- some Content-Length field of the request declares a length of 0 (such a body is accounted for from the
+    start; whether it is "finished" before the caller says so is not constrained) -/
+def declaresZero (hs : List Hdr) : Bool :=
+  hs.any fun h => h.name.toLower == "content-length" &&
+    (String.ofList (h.value.map fun b => Char.ofNat b.toNat)).trimAscii.toString.toNat? == some 0
+
 def oracleC09 (c : TCase) : Verdict :=
   let st := c.lines.foldl (fun (s : C09St) t =>
     if s.fail.isSome then s else
@@ -78,7 +84,7 @@ def oracleC09 (c : TCase) : Verdict :=
       if s.prevState == "sendBody" && s.bodyEnded && t.res == ["bool", "false"] then
         { s with fail := some "the whole request body was written and its end signalled, but the flow is not ready to advance" }
       else
-      if s.prevState == "sendBody" && !s.bodyTouched && t.res == ["bool", "true"] then
+      if s.prevState == "sendBody" && !s.bodyTouched && s.firstFlow && !declaresZero s.hdrs && t.res == ["bool", "true"] then
         { s with fail := some "the body state reports the body finished before the caller wrote or ended anything in it: the flow that advanced is not usable for sending its body" }
       else
       -- a response head other than a 100 was handed to the caller: the flow stands before its successor state
@@ -126,7 +132,8 @@ def oracleC09 (c : TCase) : Verdict :=
               | none => none)
            else if from_ == "redirect" then some "cleanup"
            else none
-         if from_ == "sendBody" && !s.bodyTouched then
+         -- (a declared length of 0 is accounted for from the start: C04 lets such a body be finished at once)
+         if from_ == "sendBody" && !s.bodyTouched && s.firstFlow && !declaresZero s.hdrs then
            { s with fail := some s!"the body state was left for {nxt} although the caller never wrote or ended a body in it" } else
          (match expected with
           | some e => if e == nxt then (if nxt == "sendBody" then { s1 with bodyTouched := false } else s1)
